@@ -81,7 +81,9 @@ pub fn lex_number(source: &[char]) -> Option<FoundToken> {
 
     // Find the longest possible valid number
     while !s.is_empty() {
-        if let Ok(n) = s.parse::<f64>() {
+        // Overflowing literals such as `1e999` parse to infinity, which is not a number we can
+        // represent (or serialize).
+        if let Some(n) = s.parse::<f64>().ok().filter(|n| n.is_finite()) {
             let precision = s.chars().rev().position(|c| c == '.').unwrap_or_default();
 
             return Some(FoundToken {
